@@ -7,6 +7,7 @@ import (
 
 	"github.com/256dpi/lungo"
 	"go.mongodb.org/mongo-driver/bson"
+	"go.mongodb.org/mongo-driver/bson/primitive"
 
 	"verifharness/drv"
 	"verifharness/fw"
@@ -72,6 +73,28 @@ func stripV(docs []bson.D) []bson.D {
 		}
 	}
 	return out
+}
+
+// decimalArithmetic tells whether the call (or a bulk item) uses $inc/$mul with
+// a decimal128 operand.
+func decimalArithmetic(op drv.Op) bool {
+	for _, m := range op.Models {
+		if decimalArithmetic(m) {
+			return true
+		}
+	}
+	for _, e := range op.Update {
+		if e.Key == "$inc" || e.Key == "$mul" {
+			if args, ok := e.Value.(bson.D); ok {
+				for _, a := range args {
+					if _, isDec := a.Value.(primitive.Decimal128); isDec {
+						return true
+					}
+				}
+			}
+		}
+	}
+	return false
 }
 
 func hasRename(u bson.D) bool {
@@ -166,6 +189,11 @@ func c01History(c *fw.Ctx, w *world, r *fw.Rand, profile string, steps int) {
 			}
 			// the modified count may differ where only a decimal128 exponent changed
 			if got.Modified != exp.Modified && got.Modified >= exp.Modified && got.Modified <= m.ModifiedMax {
+				exp.Modified = got.Modified
+			}
+			// arithmetic with a decimal128 operand: the exponent (and with it the bytes)
+			// of the result is not part of the asserted semantics (DESIGN.md 8.3)
+			if got.Modified != exp.Modified && decimalArithmetic(op) {
 				exp.Modified = got.Modified
 			}
 			// distinct values: equal numbers of different types are one value; which
